@@ -31,6 +31,17 @@
                                 ` | nmpsane=0 <head and info lines of the guarded run>` otherwise.  The engine continues
                                 from the UNGUARDED run (the one that corresponds to search.go).
 
+    params <13 integers>        the spsa build: switch the engine to `SearchReal.realCompP K Eval.shipped P` (Model/SearchRealP.lean)
+                                with `P` = NMPDiffFactor NMPDepthLimit NMPInit RFPDepthLimit RFPScoreFactor WindowSize LMRStart
+                                StandPatDelta HistBonusMul HistBonusLin HistAdjRange HistAdjReduction IIRDepthLimit (the order of
+                                the `tunables` table of params/spsa.go) — what a sequence of `params.Set` calls leaves in the
+                                variables.  Persistent engine state is untouched (as in Go).                      → ok | err args
+    spsa-table                  → the REGENERATED `tunables` table the theorems are about (`Gen.Search.spsaTunables`,
+                                `spsaDefaults`), one `name:default:min:max` per row, comma separated, in source order — the
+                                harness compares it with what the spsa binary prints (`params.UCIOptions()`).
+    params default              back to `realComp K` (the constants of params/params.go; the initial state)        → ok
+                                While a vector is set, `gog` answers like `go` (there is no guarded spsa record).
+
   digest = `%016x/gen%d/buckets%d` exactly as /repo/search/export_verif.go `VerifDigest` (+
   /repo/heur/export_verif.go): FNV-1a-64 over, per bucket, the 8 bytes of pKeys (little endian) and per
   entry move lo, move hi, value lo, value hi, packed, gen; then every cell of history, capture history,
@@ -42,6 +53,7 @@
 -/
 import ChessVerif.Model.SearchReal
 import ChessVerif.Model.SearchRealG
+import ChessVerif.Model.SearchRealP
 import ChessVerif.Model.Fen
 
 open ChessVerif
@@ -49,6 +61,8 @@ open ChessVerif
 structure DS where
   keysArr : Array BB := #[]
   eng : Search.Engine SearchReal.PS := SearchReal.newEngine 1000
+  /-- `some P`: the spsa build with the parameter vector `P`; `none`: the default build -/
+  params : Option SearchReal.Params := none
 
 def hexVal (c : Char) : Nat :=
   if '0' ≤ c ∧ c ≤ '9' then c.toNat - 48
@@ -153,12 +167,14 @@ def runGo (st : DS) (a : GoArgs) (guard : Bool) : DS × String :=
   match Fen.fromFEN K a.fen.toUTF8.data with
   | .ok b0 =>
     let b := a.moves.foldl (fun b m => (b.makeMove K m).1) b0
-    let r := SearchReal.goReal K a.L fuel st.eng b
+    let r := match st.params with
+      | none => SearchReal.goReal K a.L fuel st.eng b
+      | some P => SearchReal.goRealP K P a.L fuel st.eng b
     let e := r.engine
     let dg := digest e.ps
     -- the guarded run starts from the same engine state; only its verdict is kept
     let sane : String :=
-      if guard then
+      if guard && st.params.isNone then
         let g := SearchReal.goRealGuarded K a.L fuel st.eng b
         if resultStr g == resultStr r && digest g.engine.ps == dg then " | nmpsane=1"
         else s!" | nmpsane=0 {resultStr g}"
@@ -175,6 +191,16 @@ def step (st : DS) (line : String) : DS × String :=
     | some n => ({ st with eng := SearchReal.newEngine n }, "ok")
     | none => (st, "err args")
   | ["clear"] => ({ st with eng := SearchReal.clearEngine st.eng }, "ok")
+  | ["spsa-table"] =>
+    (st, String.intercalate "," (Gen.Search.spsaTunables.map fun r =>
+      s!"{r.2.1}:{(Gen.Search.spsaDefaults.lookup r.1).getD 0}:{r.2.2.1}:{r.2.2.2}"))
+  | ["params", "default"] => ({ st with params := none }, "ok")
+  | "params" :: vs =>
+    let xs := (vs.filter (· ≠ "")).map String.toInt?
+    if xs.any Option.isNone then (st, "err args") else
+    match SearchReal.Params.ofList (xs.map (·.getD 0)) with
+    | some P => ({ st with params := some P }, "ok")
+    | none => (st, "err args")
   | ["digest"] => (st, digest st.eng.ps)
   | "go" :: rest =>
     match parseGo rest with
